@@ -35,5 +35,14 @@ for d in sorted(os.listdir(f"{root}/seeded")):
     m = json.load(open(mp))
     rows.append(f"| {d} | {clip(m.get('summary',''), 150)} | {', '.join(m.get('detected_by', []))} | {clip(m.get('detection_note',''), 190)} |")
 design = replace_table(design, "| seed | change | caught by | how / what it took |", rows)
+# rules of the checks, from the evidence files
+import glob
+parts = []
+for f in sorted(glob.glob(f"{root}/evidence/C??.json")):
+    e = json.load(open(f))
+    rule = e.get("coverage", {}).get("rule", "")
+    parts.append(f"**{e['property_id']}** — {rule}\n")
+b, e_ = design.index("<!-- RULES-BEGIN -->") + len("<!-- RULES-BEGIN -->"), design.index("<!-- RULES-END -->")
+design = design[:b] + "\n" + "\n".join(parts) + design[e_:]
 open(f"{root}/DESIGN.md", "w").write(design)
 print("fix rows:", sum(1 for l in log if " fix:" in l), "seed rows:", len(rows))
